@@ -49,7 +49,18 @@ fn main() {
             let n = crng.range(tlo, thi) as usize;
             let opts = GenOpts { invalid: crng.chance(1, 2), destroy: crng.chance(1, 2), create: crng.chance(1, 2), beneficiary_roles: true, shared_callers: crng.chance(1, 2) };
             let (world, block) = gen_block(&mut crng, n, opts);
-            let orc = oracle(&world.db, &block);
+            let mut orc = oracle(&world.db, &block);
+            // half of the blocks run on a database with a persistent fault on a key in-order
+            // execution reads: the failing index and the committed prefix must not depend on the
+            // configuration either
+            if crng.chance(1, 2) {
+                let reads: Vec<DbKey> = world.db.reads.lock().unwrap().clone();
+                if !reads.is_empty() {
+                    let key = crng.pick(&reads).clone();
+                    world.db.faults.lock().unwrap().insert(key, FaultMode::Persistent);
+                    orc = oracle(&world.db.clone_data(), &block);
+                }
+            }
             let cfgs: Vec<(&str, RunCfg, bool)> = vec![
                 ("w1-driven", RunCfg { workers: 1, ..Default::default() }, true),
                 ("w3-driven", RunCfg { workers: 3, ..Default::default() }, true),
